@@ -184,6 +184,25 @@ func (c *Ctx) csvxRun() *simpleVerdict {
 					}
 				}
 				fields = append(fields, "é€\ufffe", "a b", string(cfg.quotes[0])+string(cfg.quotes[0])+string(cfg.quotes[0]))
+				// Latin-1 signs and the edges of the Latin-1 blocks are ordinary field text
+				fields = append(fields, "£5", "10°C", "\u0080", "a\u00a0b", "\u00bf\u00c0", "×÷", "\u007f\u0081", "§ 4")
+				// a tokenizer created afterwards with the default configuration is not affected by this one's
+				{
+					d := c.newTkHarnessOn(h.m, "csv")
+					dcfg := csvConfig{[]rune{','}, []rune{'"'}, "\n"}
+					table := [][]string{{"a", "b;c'd"}, {"e\tf", "g"}}
+					if d.fault == "" && d.setOptions(1<<6) == "" {
+						text := csvWrite(table, dcfg, '"', ',', false)
+						if r := d.tokenize(text); r.kind == "ok" {
+							if got := csvRead(r.toks, dcfg); fmt.Sprintf("%q", got) != fmt.Sprintf("%q", table) && v.bad == "" {
+								v.bad = fmt.Sprintf("a tokenizer with the default configuration, created after another one was configured with separators %q and quotes %q, reads %q back as %q [%s]: the instances share their separator or quote lists", string(cfg.seps), string(cfg.quotes), text, got, renderToks(r.toks))
+							}
+						} else if r.kind == "panic" && v.bad == "" {
+							v.bad = fmt.Sprintf("a default tokenizer created after one configured with separators %q and quotes %q panics on %q: %s", string(cfg.seps), string(cfg.quotes), text, r.why)
+						}
+						v.runs++
+					}
+				}
 				k := 0
 				seconds := append([]string{"", "é€"}, alpha...)
 				for _, f1 := range fields {
